@@ -96,8 +96,8 @@ def view(x):
     if isinstance(x, pm.ProvRecord):
         return strict.rec_key(x)
     if x.is_document():
-        return (strict.strict(x), strict.nsview(x))
-    return (strict.snap_bundle(x), strict.nsview_scope(x), getattr(x.identifier, "uri", None))
+        return (strict.strict(x), strict.nsview(x), strict.printed(x))
+    return (strict.snap_bundle(x), strict.nsview_scope(x), getattr(x.identifier, "uri", None), strict.printed(x))
 
 
 def mutate(x, how, r, shared_hint=None):
@@ -181,17 +181,20 @@ def judge(ctx, idx, case):
                 other.add_bundle(flat, Namespace("exb", "http://ex.org/bundles/")["added"])
                 pairs = [(flat, other), (src, other)]
             elif dname == "unified":
-                pairs = [(src, src.unified())]
+                u1 = src.unified()
+                pairs = [(src, u1), (u1, src.unified())]        # ... and a second result is independent of the first
             elif dname == "bundle_unified":
                 bs = list(src.bundles)
                 if not bs:
                     continue
                 b = r.choice(bs)
-                pairs = [(b, b.unified()), (src, b.unified())]
+                bu1 = b.unified()
+                pairs = [(b, bu1), (bu1, b.unified()), (src, b.unified())]
             elif dname == "flattened":
                 if not list(src.bundles):
                     continue
-                pairs = [(src, src.flattened())]
+                f1 = src.flattened()
+                pairs = [(src, f1), (f1, src.flattened())]
             else:
                 text = src.serialize(format=dname)
                 pairs = [(src, pm.ProvDocument.deserialize(content=text, format=dname)),
